@@ -19,6 +19,8 @@ CHECKS = {
              technique="custom MIR analysis: operand roles of datum stores, must-pass-through on the changed edge, guard dominance", ref="§4 C14"),
  "C06": dict(text="Static necessary conditions of cheapest-term extraction (Dijkstra discipline): candidate generation is exhaustive (loops over live classes, leaf e-nodes, usages and the heap exit only on exhaustion; pushes carry only the three legitimate guards); heap order reversed on cost; first pop wins; a parent's cost is computed only when all children are final and from their table costs; entry node, cost and key come from one popped element; extraction renames the stored node with the fresh-filling variant. Minimality as a value and user cost-function monotonicity are not decided.",
              technique="custom MIR analysis: loop-exit path rule, guard dominance, operand-role tables on the heap ordering impls", ref="§4 C06"),
+ "C10": dict(text="Static necessary conditions of the permutation-group structure: a frozen convention table (x.compose(y) = first x then y; ot[x] maps stab to x) is checked against the operand kinds of every composition in orbit-tree construction, Schreier generators, enumeration, sifting and proof-carrying sifting, kinds being classified from the types of the collections values are drawn from; orbit-table keys and sift look-up keys; add_set retains exactly the non-members, reports growth iff non-empty and rebuilds from old|new; count is the product of orbit sizes; orbit uses all generators; generators() drops only the identity; triviality and the base-point search. Correctness of Schreier-Sims as mathematics is not decided.",
+             technique="custom MIR analysis: operand-role (kind) table over resolved compose calls, guard dominance, value dependence", ref="§4 C10"),
  "C02": dict(text="Static necessary conditions of congruence-closure completeness: inter-procedural work-list summaries prove that no public &mut entry point returns with a non-empty work-list in any feature configuration; the drain loop exits only on empty; every class-level change re-queues usages with Full; PendingType::merge truth table; remove/re-insert pairing and self-symmetry derivation in the work-list handler; orbit closure feeds the stored slot set (known finding F1). Does not decide that the fixpoint equals the congruence closure.",
              technique="custom MIR analysis: inter-procedural must-pass-through summaries (greatest fixpoint), path rules, exhaustive constant evaluation of a 2x2 match, value dependence", ref="§4 C02"),
  "C01": dict(text="Static necessary conditions of equality soundness, decided on the MIR of every feature configuration: eq() answers true only via the class-group membership test behind the id and slot-set guards on canonicalised operands; the slot-set writer's cap is an intersection; add-permutation / merge branch discipline; union-find edge orientation. Does not decide soundness of computed slot maps as values.",
